@@ -75,6 +75,8 @@ def build():
     u.fn('fpdec', 'binops::mul_rounded::checked_mul_rounded', checked_mul_rounded_contract())
     u.trait('fpdec', 'binops::mul_rounded::trait MulRounded')
     G.add_family(u, idx, 'binops::mul_rounded', 'MulRounded', 'mul_rounded', mul_rounded_contract, expect=4)
+    u.fn('fpdec', 'binops::mul::mul', C(ok=[('C20.mul.explicit_overflow_panic', 'in_i128(x * y)')],
+                                        post=[('mul.value', 'r == x * y')]))
     G.add_family(u, idx, 'binops::mul', 'Mul', 'mul', mul_contract, expect=76)
     G.add_op_assign(u, idx, 'binops::mul', 'MulAssign', 'mul_assign', 'Mul', 'mul')
     return u
